@@ -225,3 +225,28 @@ def C16(t0):
         trusted=[T_RUSTC, 'the engine is the generic ark-ec Bls12 code; equality of the configuration and of the field implementation is taken to be equality of the engine: pairing outputs "for all inputs", bilinearity and non-degeneracy are NOT decided',
                  'reference values: the decimal literals in the source of ark-bls12-377 0.4.0 found in the cargo registry'],
         assumptions=['partial claim: constants and the Fp trait layer only (DESIGN §3 C16)'])
+
+def C13(t0):
+    from . import r1cs
+    _warm()
+    jobs = [(f'honest synthesis: {g}', r1cs.check_honest_gadgets, (g,)) for g in ('isqrt', 'sign gadgets', 'compress_to_field', 'decompress_from_field', 'elligator_map', 'is_eq')]
+    jobs += [('lazy forcing', r1cs.check_lazy_forcing, ())] + [(f'ElementVar op #{i} variant {v}', r1cs.check_r1cs_ops, ((i, v),)) for i in range(10) for v in (0, 1)] + S_ZERO()[:1]
+    obs = par.run_groups(jobs)
+    return finish('C13', obs, t0, level='proof',
+        functions=['r1cs/fqvar_ext.rs: isqrt, is_nonnegative, is_negative, abs', 'r1cs/inner.rs: compress_to_field, decompress_from_field, elligator_map, is_eq', 'r1cs/lazy.rs: element(), encoding() in all orders',
+                   'r1cs/ops.rs + element.rs: Add/Sub/AddAssign/SubAssign forms, double_in_place, negate (incl. cached encodings)'],
+        bounds=['all gadget inputs symbolic; lazy forcing: all sequences of length <= 3 (4 in thorough) from both initial states; operator forms with and without a previously forced encoding'],
+        trusted=[T_RUSTC, 'ark-r1cs-std gadget methods (FpVar arithmetic, inverse, is_eq, select, to_bits_le, Boolean logic, AffineVar allocation and addition) modelled by their documented contracts; satisfaction of the concrete arkworks constraint system is not re-derived',
+                 'contract S (C09) for the out-of-circuit hint', 'allocation-mode matrix (constant/input) and scalar multiplication gadgets are outside the claim'],
+        assumptions=['partial claim (DESIGN §3 C13): value equality with the native code and satisfiability exactly when the native operation succeeds, on every path of the honest synthesis'])
+
+def C14(t0):
+    from . import r1cs
+    _warm()
+    jobs = [('isqrt with adversarial hints', r1cs.check_adversarial_isqrt, ()), ('decompress_from_field with adversarial hints', r1cs.check_adversarial_decode, ()), ('witness allocation with adversarial coordinates', r1cs.check_adversarial_alloc, ())]
+    obs = par.run_groups(jobs)
+    return finish('C14', obs, t0, level='proof',
+        functions=['FqVarExtension::isqrt (free flag and root witnesses)', 'inner::ElementVar::decompress_from_field', 'AllocVar<Element, Fq> for inner::ElementVar (witness mode)'],
+        bounds=['all gadget inputs and all hint values symbolic (free witnesses); the Boolean hint is enumerated'],
+        trusted=[T_RUSTC, 'ark-r1cs-std gadget contracts (as C13)', 'zeta is a non-square, F_q is a field (no nilpotents); uniqueness of the sign-normalised square root', 'soundness of the arkworks constraint system for the modelled gadget methods'],
+        assumptions=['partial claim (DESIGN §3 C14): the enforced facts of each path imply the native contract; hints reach the output only through constrained variables'])
